@@ -128,8 +128,10 @@ def mw_roles(ctx):
     ret = [n for n in u.node.body if isinstance(n, ast.Return)]
     if len(ret) == 1 and isinstance(ret[0].value, ast.Call):
         kw = {k.arg: k.value for k in ret[0].value.keywords}
-        if is_name(kw.get('spec')) and is_name(kw.get('target')):
-            r['spec'], r['target'] = kw['spec'].id, kw['target'].id
+        if is_name(kw.get('spec')) and kw.get('target') is not None:
+            r['spec'] = kw['spec'].id
+            cfg = ctx.cfg(u)
+            r['target'] = deref(cfg, cfg.node_of(ret[0]), kw['target'])
         r['return'] = ret[0]
     hu = ctx.unit('cli.mw_handle_target')
     for n in hu.own_nodes():
@@ -247,11 +249,11 @@ def printed_is_computed(ctx):
     R = mw_roles(ctx)
     r = [n for n in mu.node.body if isinstance(n, ast.Return)]
     ok = len(r) == 1 and isinstance(r[0].value, ast.Call) and is_name(r[0].value.func, mu.params[0]) \
-        and {k.arg: norm(k.value) for k in r[0].value.keywords} == {'spec': R['spec'], 'target': R['target']} and not r[0].value.args
+        and sorted(k.arg for k in r[0].value.keywords) == ['spec', 'target'] and not r[0].value.args \
+        and all(is_name(k.value, R['spec']) for k in r[0].value.keywords if k.arg == 'spec')
     ctx.ob(ok, mu, 'the middleware hands over the parsed spec and the loaded target: %s' % [norm(x) for x in r])
-    tg = [n for n in mu.node.body if isinstance(n, ast.Assign) and is_name(n.targets[0], R['target'])]
-    ok = len(tg) == 1 and norm(tg[0].value) == 'mw_handle_target(%s, target_format)' % R['target_text']
-    ctx.ob(ok, mu, 'the target is what the loader returns: %s' % [norm(t) for t in tg])
+    ok = matches(R['target'], 'mw_handle_target(%s, target_format)' % R['target_text'])
+    ctx.ob(ok, mu, 'the target is what the loader returns: %s' % norm(R['target']))
     hu = ctx.unit('cli.mw_handle_target')
     hr = [n for n in hu.node.body if isinstance(n, ast.Return)]
     ld = [R['load_stmt']]
@@ -364,7 +366,13 @@ def entry_points(ctx):
     p = ctx.program
     u = ctx.unit('cli.main')
     r = [n for n in u.node.body if isinstance(n, ast.Return)]
-    ok = len(r) == 1 and matches(r[0].value, '$c.run(%s) or 0' % u.params[0])
+    ok = False
+    if len(r) == 1:
+        mcfg = ctx.cfg(u)
+        b = match(deref(mcfg, mcfg.node_of(r[0]), r[0].value), '$$c.run(%s) or 0' % u.params[0])
+        if b:
+            c = deref(mcfg, mcfg.node_of(r[0]), b['c'])
+            ok = isinstance(c, ast.Call) and callee_qual(p, u, c) == 'cli.get_command'
     ctx.ob(ok, u, 'main returns the command\'s status, 0 when none: %s' % [norm(x) for x in r])
     cu = ctx.unit('cli.console_main')
     ex = [c for c in calls_in(cu) if callee_qual(p, cu, c) == 'sys.exit']
